@@ -261,9 +261,9 @@ Qed.
 Lemma noniter_not_wf c : ~ well_formed c SNonIter.
 Proof. intros (t & H & _). discriminate. Qed.
 
-Lemma validate_from_ok_iff c ss : forall i jst, validate_from c i jst ss = VOk <-> Forall (well_formed c) ss.
+Lemma validate_from_ok_iff c ss : forall i, validate_from c i ss = VOk <-> Forall (well_formed c) ss.
 Proof.
-  induction ss as [|s ss IH]; intros i jst; cbn; [split; [constructor|reflexivity]|].
+  induction ss as [|s ss IH]; intros i; cbn; [split; [constructor|reflexivity]|].
   destruct s as [items|].
   - destruct (validate_items c 0 items) as [t|[j e]] eqn:Hi.
     + destruct (validate_order t) as [r|] eqn:Ho.
@@ -274,7 +274,7 @@ Proof.
         -- intros H; now inversion H.
     + split; [discriminate|]. intros H; inversion H as [|? ? Hwf _]; subst. apply seq_wf_iff in Hwf.
       destruct Hwf as (t' & Hi' & _). congruence.
-  - split; [destruct jst; discriminate|]. intros H; inversion H as [|? ? Hwf _]; subst. now apply noniter_not_wf in Hwf.
+  - split; [discriminate|]. intros H; inversion H as [|? ? Hwf _]; subst. now apply noniter_not_wf in Hwf.
 Qed.
 
 Theorem experiment_accepts_iff c ss : validate_schedules c ss = VOk <-> Forall (well_formed c) ss.
@@ -291,20 +291,20 @@ Definition has_bad_item (c : cfg) (s : rsched) : Prop :=
 Lemma wf_items_nonempty c items : well_formed c (SSeq items) -> items <> [].
 Proof. intros (t & [= ->] & _ & Hlen & _). destruct t; cbn in *; [lia|discriminate]. Qed.
 
-Lemma validate_from_spec c ss : forall i0 jst,
-  match validate_from c i0 jst ss with
+Lemma validate_from_spec c ss : forall i0,
+  match validate_from c i0 ss with
   | VOk => Forall (well_formed c) ss
   | VItemError i j e =>
-      exists pre s post, ss = pre ++ s :: post /\ i = (i0 + List.length pre)%nat /\ Forall (well_formed c) pre /\
-        ((exists items, s = SSeq items /\ first_bad_item c items j e) \/
-         (s = SNonIter /\ (pre <> [] \/ jst <> None) /\ e = TypeError))
+      exists pre items post, ss = pre ++ SSeq items :: post /\ i = (i0 + List.length pre)%nat /\ Forall (well_formed c) pre /\
+        first_bad_item c items j e
+  | VNonIter i =>
+      exists pre post, ss = pre ++ SNonIter :: post /\ i = (i0 + List.length pre)%nat /\ Forall (well_formed c) pre
   | VOrderError i r =>
       exists pre t post, ss = pre ++ sched_of t :: post /\ i = (i0 + List.length pre)%nat /\ Forall (well_formed c) pre /\
         Forall (in_range c) t /\ ~ order_ok t /\ validate_order t = Some r
-  | VUnbound i => jst = None /\ i = i0 /\ exists post, ss = SNonIter :: post
   end.
 Proof.
-  induction ss as [|s ss IH]; intros i0 jst; cbn; [constructor|].
+  induction ss as [|s ss IH]; intros i0; cbn; [constructor|].
   destruct s as [items|].
   - destruct (validate_items c 0 items) as [t|[j e]] eqn:Hi.
     + destruct (validate_order t) as [r|] eqn:Ho.
@@ -312,85 +312,77 @@ Proof.
         exists [], t, ss. cbn. repeat split; auto.
         intros Hok. apply validate_order_none_iff in Hok. congruence.
       * assert (Hwf : well_formed c (SSeq items)) by (apply seq_wf_iff; now exists t).
-        pose proof (wf_items_nonempty _ _ Hwf) as Hne.
-        set (jst' := match items with [] => jst | _ :: _ => Some (List.length items - 1)%nat end).
-        assert (Hj : jst' <> None) by (subst jst'; destruct items; [contradiction|discriminate]).
-        specialize (IH (S i0) jst').
-        destruct (validate_from c (S i0) jst' ss) as [|i j e|i r|i].
+        specialize (IH (S i0)).
+        destruct (validate_from c (S i0) ss) as [|i j e|i|i r].
         -- now constructor.
-        -- destruct IH as (pre & s & post & -> & -> & Hpre & Hs).
-           exists (SSeq items :: pre), s, post. cbn. split; [reflexivity|]. split; [lia|]. split; [now constructor|].
-           destruct Hs as [Hs|(Hs & _ & He)]; [now left|]. right. split; [assumption|]. split; [left; discriminate|assumption].
+        -- destruct IH as (pre & its & post & -> & -> & Hpre & Hs).
+           exists (SSeq items :: pre), its, post. cbn. split; [reflexivity|]. split; [lia|]. split; [now constructor|assumption].
+        -- destruct IH as (pre & post & -> & -> & Hpre).
+           exists (SSeq items :: pre), post. cbn. split; [reflexivity|]. split; [lia|now constructor].
         -- destruct IH as (pre & t' & post & -> & -> & Hpre & Hrest).
            exists (SSeq items :: pre), t', post. cbn. split; [reflexivity|]. split; [lia|]. split; [now constructor|assumption].
-        -- destruct IH as [IH _]. contradiction.
     + apply validate_items_inr in Hi. destruct Hi as (pre & bad & post & -> & Hp & -> & Hb).
-      exists [], (SSeq (map raw pre ++ bad :: post)), ss. cbn. repeat split; auto. left.
-      exists (map raw pre ++ bad :: post). split; [reflexivity|].
+      exists [], (map raw pre ++ bad :: post), ss. cbn. repeat split; auto.
       exists pre, bad, post. repeat split; auto.
       apply validate_item_err_iff. now exists e.
-  - destruct jst as [j|].
-    + exists [], SNonIter, ss. cbn. repeat split; auto. right. repeat split; auto. right; discriminate.
-    + repeat split; auto. now exists ss.
+  - exists [], ss. cbn. repeat split; auto.
 Qed.
 
 Theorem validate_schedules_spec c ss :
   match validate_schedules c ss with
   | VOk => Forall (well_formed c) ss
   | VItemError i j e =>
-      exists pre s post, ss = pre ++ s :: post /\ i = List.length pre /\ Forall (well_formed c) pre /\
-        ((exists items, s = SSeq items /\ first_bad_item c items j e) \/ (s = SNonIter /\ pre <> [] /\ e = TypeError))
+      exists pre items post, ss = pre ++ SSeq items :: post /\ i = List.length pre /\ Forall (well_formed c) pre /\
+        first_bad_item c items j e
+  | VNonIter i =>
+      exists pre post, ss = pre ++ SNonIter :: post /\ i = List.length pre /\ Forall (well_formed c) pre
   | VOrderError i r =>
       exists pre t post, ss = pre ++ sched_of t :: post /\ i = List.length pre /\ Forall (well_formed c) pre /\
         Forall (in_range c) t /\ ~ order_ok t /\ validate_order t = Some r
-  | VUnbound i => i = 0%nat /\ exists post, ss = SNonIter :: post
   end.
-Proof.
-  unfold validate_schedules. pose proof (validate_from_spec c ss 0 None) as H.
-  destruct (validate_from c 0 None ss) as [|i j e|i r|i]; auto.
-  - destruct H as (pre & s & post & H1 & H2 & H3 & H4). exists pre, s, post. repeat split; auto.
-    destruct H4 as [H4|(H4 & [H5|H5] & H6)]; [now left| |congruence]. right. repeat split; auto.
-  - now destruct H as (_ & H & H').
-Qed.
+Proof. exact (validate_from_spec c ss 0). Qed.
 
 (* stepping over a well-formed prefix *)
-Lemma validate_from_skip c pre : forall i jst rest, Forall (well_formed c) pre ->
-  exists jst', validate_from c i jst (pre ++ rest) = validate_from c (i + List.length pre) jst' rest /\
-               (pre <> [] -> jst' <> None) /\ (pre = [] -> jst' = jst).
+Lemma validate_from_skip c pre : forall i rest, Forall (well_formed c) pre ->
+  validate_from c i (pre ++ rest) = validate_from c (i + List.length pre) rest.
 Proof.
-  induction pre as [|s pre IH]; intros i jst rest Hwf.
-  - exists jst. cbn. rewrite Nat.add_0_r. repeat split; auto; try (intros H; contradiction).
+  induction pre as [|s pre IH]; intros i rest Hwf.
+  - cbn. now rewrite Nat.add_0_r.
   - inversion Hwf as [|? ? Hs Hpre]; subst. destruct s as [items|]; [|now apply noniter_not_wf in Hs].
-    pose proof (wf_items_nonempty _ _ Hs) as Hne.
     apply seq_wf_iff in Hs. destruct Hs as (t & Hi & Ho). cbn. rewrite Hi, Ho.
-    set (jst0 := match items with [] => jst | _ :: _ => Some (List.length items - 1)%nat end).
-    assert (Hj : jst0 <> None) by (subst jst0; destruct items; [contradiction|discriminate]).
-    destruct (IH (S i) jst0 rest Hpre) as (jst' & H1 & H2 & H3). exists jst'.
-    split; [rewrite H1; f_equal; lia|]. split; [|discriminate].
-    intros _. destruct pre; [rewrite H3; auto|apply H2; discriminate].
+    rewrite (IH (S i) rest Hpre). f_equal. lia.
 Qed.
 
-(* QuaraScheduleItemError  <->  the first schedule that is not well formed contains an item that is not a well-typed
-   in-range (kind, index) pair, or is a non-iterable value that is not the first schedule *)
+(* QuaraScheduleItemError raised for an item  <->  the first schedule that is not well formed is a sequence that
+   contains a value which is not a well-typed in-range (kind, index) pair *)
 Theorem item_error_iff c ss :
   (exists i j e, validate_schedules c ss = VItemError i j e) <->
-  (exists pre s post, ss = pre ++ s :: post /\ Forall (well_formed c) pre /\
-                      (has_bad_item c s \/ (s = SNonIter /\ pre <> []))).
+  (exists pre s post, ss = pre ++ s :: post /\ Forall (well_formed c) pre /\ has_bad_item c s).
 Proof.
   split.
   - intros (i & j & e & H). pose proof (validate_schedules_spec c ss) as S. rewrite H in S.
-    destruct S as (pre & s & post & -> & _ & Hpre & Hs). exists pre, s, post. repeat split; auto.
-    destruct Hs as [(items & -> & (p & bad & q & -> & _ & _ & Hbad & _))|(-> & Hne & _)]; [left|right; auto].
+    destruct S as (pre & items & post & -> & _ & Hpre & (p & bad & q & -> & _ & _ & Hbad & _)).
+    exists pre, (SSeq (map raw p ++ bad :: q)), post. repeat split; auto.
     exists (map raw p ++ bad :: q), bad. repeat split; auto. apply in_or_app; right; now left.
-  - intros (pre & s & post & -> & Hpre & Hs). unfold validate_schedules.
-    destruct (validate_from_skip c pre 0 None (s :: post) Hpre) as (jst' & -> & Hj1 & Hj2). cbn [validate_from].
-    destruct Hs as [(items & v & -> & Hin & Hbad)|(-> & Hne)].
-    + destruct (validate_items c 0 items) as [t|[j e]] eqn:Hi.
-      * exfalso. apply validate_items_inl_iff in Hi. destruct Hi as [-> Hr]. apply Hbad.
-        apply in_map_iff in Hin. destruct Hin as (it & <- & Hit). exists it. split; [reflexivity|].
-        rewrite Forall_forall in Hr. now apply Hr.
-      * now exists (0 + List.length pre)%nat, j, e.
-    + destruct jst' as [j|]; [now exists (0 + List.length pre)%nat, j, TypeError|]. exfalso. now apply Hj1.
+  - intros (pre & s & post & -> & Hpre & (items & v & -> & Hin & Hbad)). unfold validate_schedules.
+    rewrite (validate_from_skip c pre 0 _ Hpre). cbn [validate_from].
+    destruct (validate_items c 0 items) as [t|[j e]] eqn:Hi.
+    + exfalso. apply validate_items_inl_iff in Hi. destruct Hi as [-> Hr]. apply Hbad.
+      apply in_map_iff in Hin. destruct Hin as (it & <- & Hit). exists it. split; [reflexivity|].
+      rewrite Forall_forall in Hr. now apply Hr.
+    + now exists (0 + List.length pre)%nat, j, e.
+Qed.
+(* QuaraScheduleItemError raised for a whole schedule  <->  the first schedule that is not well formed is a
+   non-iterable value (in ANY position, the first included) *)
+Theorem noniter_error_iff c ss :
+  (exists i, validate_schedules c ss = VNonIter i) <->
+  (exists pre post, ss = pre ++ SNonIter :: post /\ Forall (well_formed c) pre).
+Proof.
+  split.
+  - intros (i & H). pose proof (validate_schedules_spec c ss) as S. rewrite H in S.
+    destruct S as (pre & post & -> & _ & Hpre). now exists pre, post.
+  - intros (pre & post & -> & Hpre). unfold validate_schedules.
+    rewrite (validate_from_skip c pre 0 _ Hpre). cbn [validate_from]. now exists (0 + List.length pre)%nat.
 Qed.
 
 (* QuaraScheduleOrderError  <->  the first schedule that is not well formed consists of well-typed in-range items
@@ -404,35 +396,25 @@ Proof.
   - intros (i & r & H). pose proof (validate_schedules_spec c ss) as S. rewrite H in S.
     destruct S as (pre & t & post & -> & _ & Hpre & Hr & Ho & _). now exists pre, t, post.
   - intros (pre & t & post & -> & Hpre & Hr & Ho). unfold validate_schedules.
-    destruct (validate_from_skip c pre 0 None (sched_of t :: post) Hpre) as (jst' & -> & _ & _).
+    rewrite (validate_from_skip c pre 0 _ Hpre).
     unfold sched_of. cbn [validate_from].
     assert (Hi : validate_items c 0 (map raw t) = inl t) by (apply validate_items_inl_iff; auto). rewrite Hi.
     destruct (validate_order t) as [r|] eqn:E; [now exists (0 + List.length pre)%nat, r|].
     exfalso. apply Ho. now apply validate_order_none_iff.
 Qed.
 
-(* for list-of-sequences inputs (every schedule iterable) the only outcomes are Ok / item error / order error *)
-Definition is_seq (s : rsched) : Prop := exists items, s = SSeq items.
-Theorem rejected_with_item_or_order_error c ss : Forall is_seq ss ->
-  validate_schedules c ss = VOk \/ (exists i j e, validate_schedules c ss = VItemError i j e) \/
-  (exists i r, validate_schedules c ss = VOrderError i r).
+(* THE PROPERTY: a schedule list is accepted exactly when every schedule is well formed; ANYTHING else — whatever the
+   schedules and items are — is rejected with the schedule-item or the schedule-order error *)
+Theorem accepted_or_item_or_order_error c ss :
+  (Forall (well_formed c) ss /\ validate_schedules c ss = VOk) \/
+  (~ Forall (well_formed c) ss /\ (is_item_error (validate_schedules c ss) \/ is_order_error (validate_schedules c ss))).
 Proof.
-  intros Hs. pose proof (validate_schedules_spec c ss) as S.
-  destruct (validate_schedules c ss) as [|i j e|i r|i]; [now left|right; left; now exists i, j, e|right; right; now exists i, r|].
-  exfalso. destruct S as (_ & post & ->). inversion Hs as [|? ? [items H] _]. discriminate.
+  destruct (validate_schedules c ss) eqn:E.
+  - left. split; [now apply experiment_accepts_iff|reflexivity].
+  - right. split; [intros H; apply experiment_accepts_iff in H; congruence|left; exact I].
+  - right. split; [intros H; apply experiment_accepts_iff in H; congruence|left; exact I].
+  - right. split; [intros H; apply experiment_accepts_iff in H; congruence|right; exact I].
 Qed.
-(* ... but a non-iterable FIRST schedule escapes with UnboundLocalError: the statement "anything else is rejected with
-   the schedule-item or schedule-order error" is false of the faithful model for such inputs *)
-Theorem unbound_iff c ss : (exists i, validate_schedules c ss = VUnbound i) <-> exists post, ss = SNonIter :: post.
-Proof.
-  split.
-  - intros (i & H). pose proof (validate_schedules_spec c ss) as S. rewrite H in S. now destruct S.
-  - intros (post & ->). now exists 0%nat.
-Qed.
-Theorem noniterable_first_schedule_refuted :
-  exists c ss, validate_schedules c ss <> VOk /\ (forall i j e, validate_schedules c ss <> VItemError i j e) /\
-               (forall i r, validate_schedules c ss <> VOrderError i r).
-Proof. exists (mkcfg [true] [true] [] []), [SNonIter]. cbn. repeat split; intros; discriminate. Qed.
 
 (* ================================================================== None placeholders do not matter for validation *)
 Definition same_sizes (c c' : cfg) : Prop := forall k, List.length (objs c k) = List.length (objs c' k).
@@ -454,8 +436,8 @@ Proof.
 Qed.
 Theorem validation_ignores_placeholders c c' ss : same_sizes c c' -> validate_schedules c ss = validate_schedules c' ss.
 Proof.
-  intros H. unfold validate_schedules. generalize 0%nat, (@None nat).
-  induction ss as [|s ss IH]; intros i jst; cbn; [reflexivity|].
+  intros H. unfold validate_schedules. generalize 0%nat.
+  induction ss as [|s ss IH]; intros i; cbn; [reflexivity|].
   destruct s as [items|]; [|reflexivity]. rewrite (validate_items_sizes c c' items H).
   destruct (validate_items c' 0 items) as [t|[j e]]; [|reflexivity].
   destruct (validate_order t); [reflexivity|]. apply IH.
@@ -516,12 +498,13 @@ Theorem objs_setter_error_is_item_error e k v : valid_exp e ->
 Proof.
   intros He. destruct (apply_set_spec e (SetObjs k v)) as (-> & _ & _). cbn [target e_cfg e_scheds].
   pose proof (validate_schedules_spec (with_objs (e_cfg e) k v) (e_scheds e)) as S.
-  destruct (validate_schedules (with_objs (e_cfg e) k v) (e_scheds e)) as [|i j err|i r|i]; [now left|right; now exists i, j, err| |]; exfalso.
+  destruct (validate_schedules (with_objs (e_cfg e) k v) (e_scheds e)) as [|i j err|i|i r]; [now left|right; now exists i, j, err| |]; exfalso.
+  - destruct S as (pre & post & Hss & _). unfold valid_exp in He. rewrite Hss in He.
+    apply Forall_app in He. destruct He as [_ He]. inversion He as [|? ? Hwf _]; subst.
+    now apply noniter_not_wf in Hwf.
   - destruct S as (pre & t & post & Hss & _ & _ & _ & Ho & _). unfold valid_exp in He. rewrite Hss in He.
     apply Forall_app in He. destruct He as [_ He]. inversion He as [|? ? Hwf _]; subst.
     destruct Hwf as (t' & Heq & _ & Ho'). unfold sched_of in Heq. injection Heq as Heq. apply map_raw_inj in Heq. subst. contradiction.
-  - destruct S as (_ & post & Hss). unfold valid_exp in He. rewrite Hss in He. inversion He as [|? ? Hwf _]; subst.
-    now apply noniter_not_wf in Hwf.
 Qed.
 
 (* ================================================================== calc_prob_dist: index check and None placeholders *)
